@@ -24,8 +24,9 @@ REPO = os.environ.get("NMFU_TREE", "/repo")
 M = []
 
 
-def mut(name, prop, old, new, count=1, extra_props=()):
-    M.append({"name": name, "prop": prop, "old": old, "new": new, "count": count, "extra": list(extra_props)})
+def mut(name, prop, old, new, count=1, extra_props=(), more=()):
+    """more: further (old, new) pairs applied together with the first"""
+    M.append({"name": name, "prop": prop, "old": old, "new": new, "count": count, "extra": list(extra_props), "more": list(more)})
 
 
 # ---- C02: chunking independence
@@ -35,6 +36,17 @@ mut("c02-no-inval-reread-direct", "C02",
     '                    transition_body.add("inval = *start;")', '                    pass')
 mut("c03-no-end-check-for-yields", "C03",
     "            if any(x.may_return_early() for x in trans.actions):\n                return True", "            pass")
+# (the next two exist to show that the `reloc` and `ilv` faults have teeth: the parser keeps something outside the struct)
+mut("c02-self-pointer-in-state", "C02",
+    '            contents.add(self._integer_containing(len(self.dfa.states), signed=False), "state;")',
+    '            contents.add(self._integer_containing(len(self.dfa.states), signed=False), "state;")\n            contents.add(f"struct {self.program_name}_state *self;")',
+    extra_props=("C03",),
+    more=[('            contents.add("// set starting state")', '            contents.add("state->self = state;")\n            contents.add("// set starting state")'),
+          ('            contents.add("uint8_t inval = " + ("**start" if ProgramData.do(ProgramFlag.INDIRECT_START_PTR) else "*start") + ";")',
+           '            contents.add("uint8_t inval = " + ("**start" if ProgramData.do(ProgramFlag.INDIRECT_START_PTR) else "*start") + ";")\n            contents.add("state = state->self;")')])
+mut("c02-static-last-state", "C02",
+    '            contents.add("uint8_t inval = " + ("**start" if ProgramData.do(ProgramFlag.INDIRECT_START_PTR) else "*start") + ";")',
+    '            contents.add("uint8_t inval = " + ("**start" if ProgramData.do(ProgramFlag.INDIRECT_START_PTR) else "*start") + ";")\n            contents.add("static unsigned nmfu_resume = 0; static void *nmfu_owner = 0;")\n            contents.add("if (nmfu_owner != 0 && nmfu_resume != state->state) { state->state = nmfu_resume; }")\n            contents.add("nmfu_owner = (void *)1; nmfu_resume = state->state;")')
 # ---- C10: protocol
 mut("c10-no-early-advance", "C10",
     "        return needs_early_advance and not from_end and not transition.is_fallthrough\n", "        return False\n", extra_props=("C02",))
@@ -166,7 +178,12 @@ def run_one(m, tier="quick", keep=False):
         return {"name": m["name"], "status": "NOT-APPLICABLE (pattern not found)"}
     tree = tempfile.mkdtemp(prefix="nmfumut_")
     try:
-        open(os.path.join(tree, "nmfu.py"), "w").write(src.replace(m["old"], m["new"]))
+        msrc = src.replace(m["old"], m["new"])
+        for (o2, n2) in m.get("more", []):
+            if msrc.count(o2) < 1:
+                return {"name": m["name"], "status": "NOT-APPLICABLE (secondary pattern not found)"}
+            msrc = msrc.replace(o2, n2)
+        open(os.path.join(tree, "nmfu.py"), "w").write(msrc)
         shutil.copytree(os.path.join(REPO, "example"), os.path.join(tree, "example"))
         shutil.copytree(os.path.join(REPO, "docs"), os.path.join(tree, "docs"))
         res = {"name": m["name"], "caught_by": []}
